@@ -19,6 +19,7 @@ MAP = [
     ("MinSetCover without subset_weights", "C15", "MinSetCover() with the documented default subset_weights=None raised TypeError"),
     ("MinGenSet with max_multiplicity > 1", "C15", "MinGenSet with max_multiplicity>1 returned non-generating / non-minimal sets (product bound 'total' too small, unsound complement removal, truncation instead of rounding)"),
     ("MinGenSet search range and inconclusive", "C15", "MinGenSet unsolved when the optimum is len(numbers) or len(numbers)+1 ([1,2,4] with total 7 or 100); continued to a larger size after an inconclusive solver status (also C13)"),
+    ("k-LeastAbsErrors objective value must use the error scaling", "C07", "with error_scaling get_objective_value() returned the unscaled error sum while the model minimises the scaled one; is_valid_solution() rejected the model's own optimum"),
     ("MinErrorFlow with few_flow_values_epsilon on node-weighted", "C16", "MinErrorFlow(flow_attr_origin='node', few_flow_values_epsilon>0) raised KeyError"),
 ]
 def main():
